@@ -3,6 +3,7 @@ From Coq Require Import ZArith NArith List Bool.
 From GoCoap Require Import Base.Cases Base.Bytes Gen.ServerConsts NoResp.Model Dedup.Model Dedup.Spec Server.Model Server.Spec.
 From GoCoap Require Monitor.Model Server.KeepAlive.
 From GoCoap Require Import Server.Addr Server.TokenKey Server.OptGrow Server.Queue.
+From GoCoap Require Server.Pool.
 Import ListNotations.
 Open Scope Z_scope.
 
@@ -68,6 +69,42 @@ Record pdstep := PD { pd_fresh : bool;       (* a new pooled message (pool.NewMe
 (* one peer of a burst run: it sent the requests 0 .. n-1 back to back; observed: the order the application saw them in *)
 Record bpeer := BP { bp_n : Z; bp_order : list Z }.
 
+(* the lifecycle hook of message/pool on one datagram connection: a new datagram is handed to Conn.Process (OMark),
+   ReleaseMessage is called for message number k (ORel; bar = the message carries the token of the harness' barrier
+   requests), AcquireMessage hands out the pooled message number k (OAcq); numbers in order of first appearance *)
+Inductive pobs := OMark | ORel (k : Z) (bar : bool) | OAcq (k : Z).
+
+(* which way through Conn.Process a datagram goes (Pool.path), by the decode model and the tests of cstep; the
+   connection of these runs has nothing pending, so an ACK/RST never matches a message ID (no PAnswer) *)
+Definition path_of (maxsize : Z) (d : list Z) : Pool.path :=
+  if maxsize <? blen d then Pool.PTooBig
+  else match udp_decode d with
+       | DPanic => Pool.PDecodeErr
+       | DErr _ => Pool.PDecodeErr
+       | DOk m => if is_ping m then Pool.PPing else if is_separate m then Pool.PSeparate else Pool.PQueued
+       end.
+Fixpoint count_rel (pr : list Pool.instr) : Z :=
+  match pr with [] => 0 | Pool.IRel _ :: t => 1 + count_rel t | Pool.IAcq _ :: t => count_rel t end.
+(* releases of messages that are not barrier messages, per datagram *)
+Fixpoint rel_counts (tr : list pobs) (started : bool) (cur : Z) : list Z :=
+  match tr with
+  | [] => if started then [cur] else []
+  | OMark :: t => if started then cur :: rel_counts t true 0 else rel_counts t true 0
+  | ORel _ false :: t => rel_counts t started (cur + 1)
+  | _ :: t => rel_counts t started cur
+  end.
+Fixpoint zremove_one (k : Z) (l : list Z) : list Z :=
+  match l with [] => [] | h :: t => if h =? k then t else h :: zremove_one k t end.
+(* Pool.disciplined on the observed trace: a message that is released is not in the pool at that moment (it is in
+   somebody's hands: every message was handed out by the pool or newly made), one that is handed out was in the pool *)
+Fixpoint obs_disciplined (tr : list pobs) (inpool : list Z) : bool :=
+  match tr with
+  | [] => true
+  | OMark :: t => obs_disciplined t inpool
+  | ORel k _ :: t => negb (existsb (Z.eqb k) inpool) && obs_disciplined t (k :: inpool)
+  | OAcq k :: t => existsb (Z.eqb k) inpool && obs_disciplined t (zremove_one k inpool)
+  end.
+
 Inductive case :=
 (* a live udp server with ReceivedMessageQueueSize = qsize; the handler of the first request is held while the peers
    send their bursts; witness: 1 = the read loop was seen waiting in Conn.Process for a slot, 2 = the socket was seen
@@ -78,6 +115,13 @@ Inductive case :=
 | PoolSeq (tcp : bool) (steps : list pdstep)
 | UdpRun (maxsize : Z) (lst : addr) (dst : option ip) (peers : list peer_obs) (sched : list nat)
          (alive probe stopped : bool) (panics : Z)
+(* a udp run whose server lived in a process of its own, and that process ended before the run was over: the
+   datagrams written so far (number of the peer, datagram; the last 60), how it ended (Spec.c10_crash_class) *)
+| ProcCrash (maxsize : Z) (sent : list (nat * dg)) (reason : Z)
+(* one datagram connection (in-memory session, MaxMessageSize = maxsize), the datagrams handed to Conn.Process one
+   after the other (each followed by two barrier requests), the trace of the pool's lifecycle hook; complete = false:
+   the barrier behind the datagram after the last of [dgs] did not come back, the trace goes on into its window *)
+| PoolPath (maxsize : Z) (complete : bool) (dgs : list dg) (trace : list pobs)
 (* getConnKey(r1,l1) == getConnKey(r2,l2) ?  and the two fallback helpers on l1 *)
 | KeyEq (r1 l1 r2 l2 : addr) (o_eq : bool) (o_fallback : bool) (o_wild_eq_l2 : bool)
 (* Server.NewConn / Conn.Close / tick sequences on a live server: observed connection identities *)
@@ -430,6 +474,14 @@ Definition agrees (c : case) : bool :=
   | TokKey toks => forallb (fun x => crc64 (fst x) =? snd x) toks
   | KaRun _ per mx evs peers alive stopped panics =>
       alive && stopped && (panics =? 0) && ka_agrees per mx evs peers
+  (* the model never ends: cstep is total (C10_concrete_total), the decode loop returns (C10_decode_loop_terminates),
+     no path of Conn.Process gives a pooled message to two holders (the C10_pool theorems) *)
+  | ProcCrash _ _ _ => false
+  (* per datagram as many releases as the program of its path has (Pool.path_prog), and every release by a holder *)
+  | PoolPath maxsize complete dgs trace =>
+      (blen (rel_counts trace false 0) =? blen dgs + (if complete then 0 else 1))
+      && list_eqb Z.eqb (firstn (length dgs) (rel_counts trace false 0)) (map (fun d => count_rel (Pool.path_prog (path_of maxsize (dg_bytes d)))) dgs)
+      && obs_disciplined trace []
   | UdpRun maxsize lst dst peers sched alive probe stopped panics =>
       alive && probe && stopped && (panics =? 0) &&
       match cserver_run maxsize (init_state 0)
@@ -475,6 +527,8 @@ Definition pclass (c : case) : N :=
   | BurstRun _ peers _ alive probe stopped panics =>
       c10_burst_class alive probe stopped panics (map (fun p => (bp_n p, bp_order p)) peers)
   | PoolSeq _ steps => c10_decode_class (map pd_ret steps) (map (fun s => pd_res s =? 99) steps)
+  | ProcCrash _ _ reason => c10_crash_class reason
+  | PoolPath _ _ _ _ => 0%N   (* correspondence of Pool.v only; a server that dies is a ProcCrash case *)
   | UdpRun _ _ _ peers _ alive probe stopped panics =>
       let c := c10_run_class alive probe stopped panics (goods_of peers) in
       if negb (N.eqb c 0) then c
